@@ -105,7 +105,15 @@ fn parse_script(v: &Value) -> Result<Script, String> {
                 return Err(format!("bad op duration {d}"));
             };
             let ev = o.get(1).and_then(|x| x.as_u64()).map(|x| x as u32);
-            ops.push((op, ev));
+            // optional third element: the op is performed `rep` times in a row (compact notation for
+            // long chains); the event, if any, belongs to the last repetition
+            let rep = o.get(2).and_then(|x| x.as_u64()).unwrap_or(1);
+            for _ in 1..rep {
+                ops.push((op.clone(), None));
+            }
+            if rep >= 1 {
+                ops.push((op, ev));
+            }
         }
     }
     Ok(Script {
@@ -115,89 +123,213 @@ fn parse_script(v: &Value) -> Result<Script, String> {
     })
 }
 
-fn run_sched(case: &Value) -> Value {
-    let clock0 = get_u64(case, "clock0", 0);
-    let mut scripts = Vec::new();
-    if let Some(arr) = case.get("tasks").and_then(|x| x.as_array()) {
-        for t in arr {
-            match parse_script(t) {
-                Ok(s) => scripts.push(s),
-                Err(e) => return err(e),
+/// One `AsyncDriver` with its scripted tasks and budget list; `step` performs exactly one `run_for` call
+/// (after spawning the tasks that are due before that call).  `c18.sched` runs one session to its end,
+/// `c18.multi` keeps several sessions alive on the thread and steps them in a requested order.
+struct Session {
+    scripts: Vec<Script>,
+    budgets: Vec<u64>,
+    tail_budget: u64,
+    tail_max: u64,
+    sh: Rc<Shared>,
+    driver: AsyncDriver,
+    results: Vec<Value>,
+    spawn_clock: Vec<Value>,
+    used_budgets: Vec<u64>,
+    call: u64,
+    tail_calls: u64,
+    finished: bool,
+}
+
+impl Session {
+    fn new(case: &Value) -> Result<Session, String> {
+        let clock0 = get_u64(case, "clock0", 0);
+        let mut scripts = Vec::new();
+        if let Some(arr) = case.get("tasks").and_then(|x| x.as_array()) {
+            for t in arr {
+                scripts.push(parse_script(t)?);
             }
         }
+        let budgets: Vec<u64> = case
+            .get("budgets")
+            .and_then(|x| x.as_array())
+            .map(|a| a.iter().map(|x| x.as_u64().unwrap_or(0)).collect())
+            .unwrap_or_default();
+        let driver = if case.get("clock0").is_some() {
+            AsyncDriver::with_clock(clock0)
+        } else {
+            AsyncDriver::new()
+        };
+        let n = scripts.len();
+        Ok(Session {
+            scripts,
+            budgets,
+            tail_budget: get_u64(case, "tail_budget", 0),
+            tail_max: get_u64(case, "tail_max", 0),
+            sh: Rc::new(Shared {
+                log: RefCell::new(Vec::new()),
+                call: Cell::new(0),
+                done: Cell::new(0),
+            }),
+            driver,
+            results: Vec::new(),
+            spawn_clock: vec![Value::Null; n],
+            used_budgets: Vec::new(),
+            call: 0,
+            tail_calls: 0,
+            finished: false,
+        })
     }
-    let budgets: Vec<u64> = case
-        .get("budgets")
-        .and_then(|x| x.as_array())
-        .map(|a| a.iter().map(|x| x.as_u64().unwrap_or(0)).collect())
-        .unwrap_or_default();
-    let tail_budget = get_u64(case, "tail_budget", 0);
-    let tail_max = get_u64(case, "tail_max", 0);
 
-    let sh = Rc::new(Shared {
-        log: RefCell::new(Vec::new()),
-        call: Cell::new(0),
-        done: Cell::new(0),
-    });
-    let mut driver = if case.get("clock0").is_some() {
-        AsyncDriver::with_clock(clock0)
-    } else {
-        AsyncDriver::new()
-    };
-    let mut results: Vec<Value> = Vec::new();
-    let mut spawn_clock: Vec<Value> = vec![Value::Null; scripts.len()];
-    let mut used_budgets: Vec<u64> = Vec::new();
-    let ntasks = scripts.len() as u64;
-    let mut call: u64 = 0;
-    let mut tail_calls: u64 = 0;
-    loop {
-        let budget = if (call as usize) < budgets.len() {
-            budgets[call as usize]
+    /// One `run_for` call.  Returns false (and does nothing) once the session is over.
+    fn step(&mut self) -> bool {
+        if self.finished {
+            return false;
+        }
+        let call = self.call;
+        let budget = if (call as usize) < self.budgets.len() {
+            self.budgets[call as usize]
         } else {
             // tail phase: keep calling until every task finished and the driver reports MaxCycles
-            if tail_calls >= tail_max {
-                break;
+            if self.tail_calls >= self.tail_max {
+                self.finished = true;
+                return false;
             }
-            tail_calls += 1;
-            tail_budget
+            self.tail_calls += 1;
+            self.tail_budget
         };
-        for (i, s) in scripts.iter().enumerate() {
+        for (i, s) in self.scripts.iter().enumerate() {
             if s.at == call {
-                spawn_clock[i] = json!(driver.clock());
-                driver.spawn(scripted(i as u64, s.clone(), sh.clone()));
+                self.spawn_clock[i] = json!(self.driver.clock());
+                self.driver
+                    .spawn(scripted(i as u64, s.clone(), self.sh.clone()));
             }
         }
-        sh.call.set(call);
-        let r = driver.run_for(budget);
-        used_budgets.push(budget);
+        self.sh.call.set(call);
+        let r = self.driver.run_for(budget);
+        self.used_budgets.push(budget);
         let ev = match r.event {
             DriverEvent::MaxCycles => Value::Null,
             DriverEvent::User(x) => json!(x),
         };
-        results.push(json!([ev, r.cycles_executed, driver.clock()]));
-        call += 1;
-        if (call as usize) >= budgets.len()
+        self.results
+            .push(json!([ev, r.cycles_executed, self.driver.clock()]));
+        self.call += 1;
+        let call = self.call;
+        if (call as usize) >= self.budgets.len()
             && r.event == DriverEvent::MaxCycles
-            && sh.done.get() == ntasks
-            && scripts.iter().all(|s| s.at < call)
+            && self.sh.done.get() == self.scripts.len() as u64
+            && self.scripts.iter().all(|s| s.at < call)
         {
+            self.finished = true;
+        }
+        true
+    }
+
+    fn report(&self) -> Value {
+        let log: Vec<Value> = self
+            .sh
+            .log
+            .borrow()
+            .iter()
+            .map(|(t, s, c, k)| json!([t, s, c, k]))
+            .collect();
+        json!({
+            "ok": true,
+            "log": log,
+            "results": self.results,
+            "budgets": self.used_budgets,
+            "spawn_clock": self.spawn_clock,
+            "done": self.sh.done.get(),
+        })
+    }
+}
+
+fn run_sched(case: &Value) -> Value {
+    let mut s = match Session::new(case) {
+        Ok(s) => s,
+        Err(e) => return err(e),
+    };
+    while s.step() {}
+    s.report()
+}
+
+/// Several drivers alive on ONE thread, stepped in a requested order.
+/// `{"drivers": [sched case, ...], "create": "upfront" | "lazy", "order": [entry, ...]}` where an entry is
+/// a driver index (one `run_for` call of that driver; a no-op once it is over) or a list of durations
+/// (`block_on` of a future that sleeps them in turn -- another user of the thread's scheduler channel).
+/// When `order` is exhausted the unfinished drivers are stepped round-robin until all are over.
+/// The answer holds one ordinary observation per driver.
+fn run_multi(case: &Value) -> Value {
+    let empty = Vec::new();
+    let dcases = case
+        .get("drivers")
+        .and_then(|x| x.as_array())
+        .unwrap_or(&empty);
+    let lazy = case.get("create").and_then(|x| x.as_str()) == Some("lazy");
+    let mut sessions: Vec<Option<Session>> = Vec::new();
+    for d in dcases {
+        if lazy {
+            sessions.push(None);
+        } else {
+            match Session::new(d) {
+                Ok(s) => sessions.push(Some(s)),
+                Err(e) => return err(e),
+            }
+        }
+    }
+    let mut executed: Vec<Value> = Vec::new();
+    let step_one = |sessions: &mut Vec<Option<Session>>, i: usize| -> Result<bool, String> {
+        if i >= sessions.len() {
+            return Err(format!("driver index {i} out of range"));
+        }
+        if sessions[i].is_none() {
+            sessions[i] = Some(Session::new(&dcases[i])?);
+        }
+        Ok(sessions[i].as_mut().unwrap().step())
+    };
+    if let Some(order) = case.get("order").and_then(|x| x.as_array()) {
+        for e in order {
+            if let Some(i) = e.as_u64() {
+                match step_one(&mut sessions, i as usize) {
+                    Ok(true) => executed.push(json!(i)),
+                    Ok(false) => {}
+                    Err(e) => return err(e),
+                }
+            } else if let Some(ds) = e.as_array() {
+                let ds: Vec<u64> = ds.iter().map(|x| x.as_u64().unwrap_or(0)).collect();
+                sc62015_core::async_driver::block_on(async move {
+                    for d in ds {
+                        sleep_cycles(d).await;
+                    }
+                });
+                executed.push(json!("block_on"));
+            }
+        }
+    }
+    loop {
+        let mut any = false;
+        for i in 0..sessions.len() {
+            match step_one(&mut sessions, i) {
+                Ok(true) => {
+                    any = true;
+                    if executed.len() < 4096 {
+                        executed.push(json!(i));
+                    }
+                }
+                Ok(false) => {}
+                Err(e) => return err(e),
+            }
+        }
+        if !any {
             break;
         }
     }
-    let log: Vec<Value> = sh
-        .log
-        .borrow()
+    let obs: Vec<Value> = sessions
         .iter()
-        .map(|(t, s, c, k)| json!([t, s, c, k]))
+        .map(|s| s.as_ref().map(|s| s.report()).unwrap_or(Value::Null))
         .collect();
-    json!({
-        "ok": true,
-        "log": log,
-        "results": results,
-        "budgets": used_budgets,
-        "spawn_clock": spawn_clock,
-        "done": sh.done.get(),
-    })
+    json!({"ok": true, "drivers": obs, "executed": executed})
 }
 
 // ------------------------------------------------------------------------------------------------
@@ -417,8 +549,12 @@ fn run_cpu(case: &Value) -> Value {
 
 pub fn handle(verb: &str, req: &Value, _st: &mut State) -> Value {
     match verb {
-        "sched" | "cpu" => {
-            let f = if verb == "sched" { run_sched } else { run_cpu };
+        "sched" | "cpu" | "multi" => {
+            let f = match verb {
+                "sched" => run_sched,
+                "multi" => run_multi,
+                _ => run_cpu,
+            };
             let cases = match req.get("cases").and_then(|x| x.as_array()) {
                 Some(c) => c,
                 None => return err("cases missing"),
